@@ -318,6 +318,8 @@ class _parse_connection_info:
 
 @contract('bridge_env.network_bridge.client.Client.parse_leader_message', props=P + ['C11'])
 class _parse_leader:
+    at_calls = 'abstract'
+    returns = Enum(Player)
     params = dict(content=OneOf([PR.enc_lead_prompt(p) for p in Player] + [PR.enc_lead_prompt(None)]),
                   dummy=Enum(Player))
     modifies = []
